@@ -2,7 +2,7 @@
 # tools/sweep.sh <tier> <seed...> : run every claimed check for each seed, print one line per run
 TIER=${1:-quick}; shift
 SEEDS=${*:-1}
-cd /verif
+cd "$(dirname "$0")/.."
 for S in $SEEDS; do
   for P in $(python3 -c "import json; print(' '.join(c['property_id'] for c in json.load(open('MANIFEST.json'))['checks']))"); do
     T0=$(date +%s.%N)
